@@ -10,6 +10,7 @@ mod refenc;
 mod misc;
 mod ops;
 mod run;
+mod scale;
 mod sink;
 mod util;
 mod wrap;
@@ -32,6 +33,7 @@ fn main() {
             run::run_stdin(args.get(2).map(|s| &s[..]));
         }
         Some("openonly") => extra::open_only(&args[2]),
+        Some("scale") => std::process::exit(scale::child_main(&args[2..])),
         Some("golden") => {
             // golden <dir>: files written by the CURRENT tree, to be committed once
             gen::golden(&args[2]);
